@@ -71,7 +71,7 @@ MODEL_ATTRS = {
     "compartments": ("b.nComps", "LEN"),     # only ever used under len(...)
     "flows": ("b.nFlows", "LEN"),
 }
-LEAN_T = {"STR": "String", "STRS": "List String", "SDIV": "List (String × List Nat)", "SDS": "List (String × α)", "S": "α", "V": "List α", "IV": "List Nat", "IM": "List (List Nat)", "BV": "List Bool", "M": "Matrix α",
+LEAN_T = {"ML": "List (Matrix α)", "STR": "String", "STRS": "List String", "SDIV": "List (String × List Nat)", "SDS": "List (String × α)", "S": "α", "V": "List α", "IV": "List Nat", "IM": "List (List Nat)", "BV": "List Bool", "M": "Matrix α",
           "VM": "List (List α)", "N": "Nat", "B": "Bool", "G": "γ", "VD": "List (List α)", "IVD": "List (List Nat)",
           "IMD": "List (List (List Nat))", "TVMAP": "List (κ × List Nat)", "K": "κ"}
 
@@ -348,6 +348,10 @@ def call(n, cx):
         if a[1] == "N":
             # uninitialised memory: every position is written before it is read (`C06.targets_partition`); modelled as zeros
             return (f"(List.replicate {a[0]} (0 : α))", "V")
+    if fs in ("fnp.kron", "jnp.kron", "np.kron") and len(n.args) == 2 and not n.keywords:
+        a = expr(n.args[0], cx); b2 = expr(n.args[1], cx)
+        if a[1] == "M" and b2[1] == "M":
+            return (f"(kron {a[0]} {b2[0]})", "M")
     if fs == "jnp.cumsum" and len(n.args) == 1 and not n.keywords:
         a = expr(n.args[0], cx)
         if a[1] == "V":
@@ -604,6 +608,8 @@ def for_stmt(st, rest, cx, k, ind):
         seq = expr(it, cx)
         if seq[1] == "STRS" and isinstance(st.target, ast.Name):
             bcx.env[st.target.id] = (elem, "STR")
+        elif seq[1] == "ML" and isinstance(st.target, ast.Name):
+            bcx.env[st.target.id] = (elem, "M")
         elif seq[1] == "PAIRS" and isinstance(st.target, ast.Name):
             bcx.env[st.target.id] = (elem, ("T", ("N", "N")))
         else:
@@ -1207,6 +1213,89 @@ section
 variable {α : Type} [Zero α] [One α] [Add α] [Sub α] [Mul α] [Div α] [LT α] [DecidableLT α]
 """
 
+
+# ------------------------------------------------------------------------------------------------ mixing matrix
+MSRC = "summer2/parameters/param_impl.py"
+
+
+def gen_mixing(tree, out, report):
+    def attempt(key, thunk):
+        try:
+            out.append(thunk())
+            report[key] = "ok"
+        except Untranslatable as e:
+            report[key] = "untranslatable: " + str(e)
+        except Exception as e:
+            report[key] = "untranslatable: internal " + type(e).__name__ + ": " + str(e)
+
+    def t_mix():
+        fp = top_func(tree, "finalize_parameters")
+        stmts = fp.body
+        src = [ast.unparse(st) for st in stmts]
+        # the matrices are collected in the order of model._stratifications
+        try:
+            i0 = src.index("mixing_matrices = []")
+        except ValueError:
+            raise Untranslatable("finalize_parameters: `mixing_matrices = []` not found")
+        loop = stmts[i0 + 1]
+        if not (isinstance(loop, ast.For) and ast.unparse(loop.target) == "s" and ast.unparse(loop.iter) == "model._stratifications"):
+            raise Untranslatable("finalize_parameters: the matrices must be collected by `for s in model._stratifications`")
+        mm_if = [x for x in loop.body if isinstance(x, ast.If) and ast.unparse(x.test) == "s.mixing_matrix is not None"]
+        if len(mm_if) != 1:
+            raise Untranslatable("finalize_parameters: `if s.mixing_matrix is not None`")
+        body_src = [ast.unparse(x) for x in mm_if[0].body]
+        if body_src[0] != "param = get_modelparameter_from_param(s.mixing_matrix, True)" or body_src[-1] != "mixing_matrices.append(param.obj)" \
+                or sum(1 for b_ in body_src if "mixing_matrices" in b_) != 1:
+            raise Untranslatable("finalize_parameters: a stratification's matrix must be appended once, as given")
+        for other in stmts[:i0] + stmts[i0 + 2:]:
+            if "mixing_matrices" in ast.unparse(other) and other is not stmts[i0 + 2]:
+                raise Untranslatable("finalize_parameters: mixing_matrices is touched outside the collection loop and the dispatch")
+        disp = stmts[i0 + 2]
+        ok = (isinstance(disp, ast.If) and ast.unparse(disp.test) == "len(mixing_matrices) == 0" and len(disp.orelse) == 1 and isinstance(disp.orelse[0], ast.If)
+              and ast.unparse(disp.orelse[0].test) == "len(mixing_matrices) == 1")
+        if not ok:
+            raise Untranslatable("finalize_parameters: dispatch on len(mixing_matrices)")
+        b0 = [ast.unparse(x) for x in disp.body]
+        if b0[0] != "param = get_modelparameter_from_param(Data(fnp.array([[1.0]])))" or "model.mixing_matrix = param" not in b0:
+            raise Untranslatable("finalize_parameters: the default mixing matrix must be [[1.0]]")
+        b1 = [ast.unparse(x) for x in disp.orelse[0].body]
+        if b1[:2] != ["mm = mixing_matrices[0]", "param = get_modelparameter_from_param(defer(assign)(mm))"] or "model.mixing_matrix = param" not in b1:
+            raise Untranslatable("finalize_parameters: a single mixing matrix must be used as it is")
+        e2 = disp.orelse[0].orelse
+        fns = [x for x in e2 if isinstance(x, ast.FunctionDef)]
+        b2 = [ast.unparse(x) for x in e2 if not isinstance(x, ast.FunctionDef)]
+        if len(fns) != 1 or b2[:2] != [f"final_mat_func = defer({fns[0].name})(*mixing_matrices)", "param = get_modelparameter_from_param(final_mat_func)"] \
+                or "model.mixing_matrix = param" not in b2:
+            raise Untranslatable("finalize_parameters: several mixing matrices must be combined by the nested function applied to *mixing_matrices")
+        fn = fns[0]
+        a = fn.args
+        if len(a.args) != 1 or a.vararg is None or a.kwarg or a.kwonlyargs:
+            raise Untranslatable("signature of " + fn.name)
+        cx = Cx({a.args[0].arg: (a.args[0].arg, "M"), a.vararg.arg: (a.vararg.arg, "ML")}, {})
+        body = block(fn.body, cx, lambda c: "", 1)
+        if cx.env.get("@return", (None, None))[1] != "M":
+            raise Untranslatable(fn.name + " does not return a matrix")
+        o = emit("compute_final_matrix", f"({a.args[0].arg} : Matrix α) ({a.vararg.arg} : List (Matrix α))", body, "Matrix α",
+                 f"`param_impl.py::finalize_parameters.{fn.name}`")
+        o += ("\n/-- `param_impl.py::finalize_parameters`: `model.mixing_matrix` from the stratifications' matrices, collected in the order of "
+              "`model._stratifications` (none: `[[1.0]]`; one: itself; several: `compute_final_matrix(*mixing_matrices)`) -/\n"
+              "def final_mixing_matrix (mixing_matrices : List (Matrix α)) : Matrix α :=\n"
+              "  match mixing_matrices with\n  | [] => [[(1 : α)]]\n  | [mm] => mm\n  | base_matrix :: args => compute_final_matrix base_matrix args\n")
+        return o
+    attempt("final_mixing_matrix", t_mix)
+
+
+MHEADER = """-- GENERATED by harness/translate/gen_rates.py from /repo (summer2/parameters/param_impl.py). Do not edit.
+import Summer.Model.JaxPrelude
+import Summer.Model.Run
+set_option linter.unusedVariables false
+namespace Summer.Generated.Mixing
+open Summer Summer.Run
+
+section
+variable {α : Type} [Zero α] [One α] [Add α] [Sub α] [Mul α] [Div α] [LT α] [DecidableLT α]
+"""
+
 DHEADER = """-- GENERATED by harness/translate/gen_rates.py from /repo (summer2/runner/jax/derived_outputs.py). Do not edit.
 import Summer.Model.JaxPrelude
 import Summer.Model.Lit
@@ -1277,6 +1366,21 @@ def main():
     if old != itext:
         with open(ipath, "w") as f:
             f.write(itext)
+    # mixing matrix
+    mout = [MHEADER]
+    try:
+        with open(os.path.join(REPO, MSRC)) as f:
+            mtree = ast.parse(f.read())
+        gen_mixing(mtree, mout, report)
+    except Exception as e:
+        report["param_impl.py"] = "untranslatable: " + type(e).__name__ + ": " + str(e)
+    mout.append("end\nend Summer.Generated.Mixing\n")
+    mtext = "\n".join(mout)
+    mpath = os.path.join(OUT, "Mixing.lean")
+    old = open(mpath).read() if os.path.exists(mpath) else None
+    if old != mtext:
+        with open(mpath, "w") as f:
+            f.write(mtext)
     print(json.dumps(report))
 
 
